@@ -120,7 +120,17 @@ class Iface:
             return [Res(st, VBuiltin("child." + name, ch))]
         if name == "children":
             raise Unsupported("children of abstract child")
-        raise Unsupported(f"attribute {name} of abstract child")
+        # an attribute that only some primitive classes define: AttributeError for the others
+        from .frontend import PRIMITIVES
+
+        owners = [c for c in PRIMITIVES if name in self.X.P.attr_names(c)]
+        cn = core.cname(core.SH(v))
+        out = []
+        for s, has in self.X.branch(st, z3.Or([cn == core.strlit(c) for c in owners] or [z3.BoolVal(False)])):
+            if has:
+                raise Unsupported(f"attribute {name} of abstract child of class in {owners}")
+            out.extend(self.X.raise_(s, "AttributeError", name))
+        return out
 
     def setattr(self, st, ch, name, val):
         raise Unsupported(f"setattr {name} on abstract child")
